@@ -257,6 +257,13 @@ func (e *Engine) pipelineObligations(prop string) []*Oblig {
 			"github.com/goblimey/go-ntrip/apps/displayrtcm3.HandleMessages",
 			"github.com/goblimey/go-ntrip/apps/rtcmfilter.HandleMessages",
 		})...)
+	case "C10":
+		out = append(out, e.joinObligations(prop, []string{"github.com/goblimey/go-ntrip/apps/rtcmfilter.HandleMessages"})...)
+		out = append(out, e.spawnDisjoint(prop, []string{
+			"github.com/goblimey/go-ntrip/apps/rtcmfilter.HandleMessages",
+			"(*github.com/goblimey/go-ntrip/file_handler.Handler).Handle",
+			"(*github.com/goblimey/go-ntrip/apps/appcore.AppCore).HandleMessagesUntilEOF",
+		})...)
 	case "C09":
 		out = append(out, e.spawnDisjoint(prop, []string{
 			"(*github.com/goblimey/go-ntrip/file_handler.Handler).Handle",
